@@ -18,6 +18,16 @@ METH = os.path.join(REPO, 'matched_markets', 'methodology')
 DEFAULT_SEED = 20260930
 
 
+def sz(tier, quick, thorough):
+  """Number of cases: the quick size, the thorough size, or -- when the source a model was written from has changed
+  since it was validated (VERIF_ESCALATED, set by main) -- four times the quick size."""
+  if tier == 'thorough':
+    return thorough
+  if os.environ.get('VERIF_ESCALATED'):
+    return min(thorough, 4 * quick)
+  return quick
+
+
 def get_seed():
   try:
     return int(os.environ.get('VERIF_SEED', DEFAULT_SEED))
@@ -320,6 +330,7 @@ class Check:
       self.cov['explanation'] = explanation
     self.cov['tie_broken'] = self.broken
     self.cov['known_findings_reobserved'] = {k: len(v[1]) for k, v in listed.items()}
+    self.cov['source_changed_since_validation'] = (os.environ.get('VERIF_ESCALATED') or '').split(',') if os.environ.get('VERIF_ESCALATED') else []
     ev = {'property_id': self.prop, 'tier': self.tier, 'seed': self.seed, 'level': level,
           'coverage': self.cov, 'assumptions': list(self.assumptions),
           'wall_s': round(time.time() - self.t0, 2), 'violations': len(unlisted) + (1 if (self.broken and not unlisted) else 0)}
